@@ -12,6 +12,7 @@ import (
 	"strings"
 	"sync"
 	"sync/atomic"
+	"time"
 
 	"github.com/cloudwego/gopkg/bufiox"
 	"github.com/cloudwego/gopkg/protocol/thrift/apache"
@@ -281,9 +282,73 @@ func runRegistryConcurrent(c *ApCase, w *TraceWriter) {
 	w.Ev("regconc", "rounds", rounds, "lost", lost)
 }
 
+// runRegistryReentrant: a registered callback uses the registry itself - it installs the struct checker lazily, validates
+// through CheckTStruct, re-registers itself - while another goroutine keeps registering the write hook.  Every dispatch
+// returns, with the callback's result.
+func runRegistryReentrant(c *ApCase, w *TraceWriter) {
+	defer func() {
+		apache.RegisterCheckTStruct(nil)
+		apache.RegisterThriftRead(nil)
+		apache.RegisterThriftWrite(nil)
+	}()
+	apache.RegisterCheckTStruct(nil)
+	apache.RegisterThriftRead(nil)
+	apache.RegisterThriftWrite(nil)
+	v := &struct{ X int }{42}
+	rd := bufiox.NewBytesReader([]byte{1, 2, 3})
+	stop := make(chan struct{})
+	var bg sync.WaitGroup
+	bg.Add(1)
+	go func() { // a component that (re-)registers another hook all the time
+		defer bg.Done()
+		for {
+			select {
+			case <-stop:
+				return
+			default:
+				apache.RegisterThriftWrite(func(wx bufiox.Writer, x interface{}) error { return nil })
+				runtime.Gosched()
+			}
+		}
+	}()
+	checked := int32(0)
+	var readCb func(r bufiox.Reader, x interface{}) error
+	readCb = func(r bufiox.Reader, x interface{}) error {
+		apache.RegisterCheckTStruct(func(y interface{}) error { atomic.AddInt32(&checked, 1); return nil }) // lazy installation
+		if err := apache.CheckTStruct(x); err != nil {
+			return err
+		}
+		apache.RegisterThriftRead(readCb) // re-registers itself
+		return errCb
+	}
+	apache.RegisterThriftRead(readCb)
+	done, okRounds := true, 0
+	for r := 0; r < c.N && done; r++ {
+		res := make(chan error, 1)
+		go func() { res <- apache.ThriftRead(rd, v) }()
+		select {
+		case err := <-res:
+			if err == errCb {
+				okRounds++
+			}
+		case <-time.After(5 * time.Second):
+			done = false
+		}
+	}
+	close(stop)
+	if done {
+		bg.Wait()
+	}
+	w.Ev("regre", "rounds", c.N, "done", done, "ok", okRounds, "checked", int(atomic.LoadInt32(&checked)))
+}
+
 func runRegistry(c *ApCase, w *TraceWriter) {
 	if c.Fn == "concurrent" {
 		runRegistryConcurrent(c, w)
+		return
+	}
+	if c.Fn == "reentrant" {
+		runRegistryReentrant(c, w)
 		return
 	}
 	// registry globals are process-wide: set, use, and always restore to "unregistered"
@@ -455,6 +520,7 @@ func genApCases(c *Ctx) []json.RawMessage {
 				out = append(out, mustJSON(ApCase{Mode: "registry", Fn: fn, Reg: reg, CbErr: ce}))
 				if fn == "read" && reg && ce { // (once)
 					out = append(out, mustJSON(ApCase{Mode: "registry", Fn: "concurrent", N: 3000}))
+					out = append(out, mustJSON(ApCase{Mode: "registry", Fn: "reentrant", N: 300}))
 				}
 			}
 		}
